@@ -254,6 +254,11 @@ class Program:
                 self._resolve_bases(c)
         self._subclasses = None
         self._all_funcs = None
+        # analysis-time view: small private helpers unknown to the rules are inlined into their callers (vf/inline.py)
+        self.inlined = {}
+        if not os.environ.get("VF_NO_INLINE"):
+            from . import inline
+            self.inlined = inline.apply(self)
 
     # ------------------------------------------------------------------ index
     def _index(self, m):
